@@ -645,7 +645,13 @@ def run(ctx):
                 if not used:
                     continue
                 n12 += 1
-                if v in used:
+                # the value before normalisation (`v = self.h(raw)`): it must not be what is filed
+                raw_ = {a.id for n_ in walk_no_nested(m_.node) if isinstance(n_, ast.Assign) and any(isinstance(t, ast.Name) and t.id == v for t in n_.targets) and isinstance(n_.value, ast.Call)
+                        for a in n_.value.args if isinstance(a, ast.Name) and a.id != v}
+                if v in used and (raw_ & used):
+                    r.fail(m_, node.test, "len(%s) decides but %s is also stored" % (v, ", ".join(sorted(raw_ & used))), "%s measures and validates `%s` but files `%s`, the spelling before the dash prefix was removed: "
+                           "an alias given with its dash ('-a') is kept as '-a' - looking it up by 'a' fails and a second option may take the same alias" % (m_.short, v, ", ".join(sorted(raw_ & used))))
+                elif v in used:
                     r.ok("%s: len(%s) decides, %s is validated and stored" % (m_.short, v, v))
                 else:
                     r.fail(m_, node.test, "len(%s) decides but %s is stored" % (v, ", ".join(sorted(used))), "%s measures `%s` but validates and stores `%s`: an alias given with its dash ('-a') is filed as a "
